@@ -1,3 +1,4 @@
+import OhkamiModel.Drv.C02
 import OhkamiModel.Drv.C03
 import OhkamiModel.Drv.C20
 /-! The one line-protocol driver: `driver <prop>` reads one JSON case per line on stdin, writes one JSON answer per line. -/
@@ -14,6 +15,7 @@ partial def loop (h : IO.FS.Stream) (f : Json → Except String Json) : IO Unit 
 def main (args : List String) : IO UInt32 := do
   let stdin ← IO.getStdin
   match args with
+  | ["C02"] => loop stdin DrvC02.runCase; return 0
   | ["C03"] => loop stdin DrvC03.runCase; return 0
   | ["C20"] => loop stdin DrvC20.runCase; return 0
   | _ => IO.eprintln "usage: driver <property id>"; return 2
